@@ -80,10 +80,15 @@ def make_case(rng, method=None, prec_kind=None, force=None):
                 prec_kind=prec_kind, remove_mean=bool(rng.integers(2)) and method == 'crossnobis',
                 container=gen.pick(rng, gen.CONTAINERS),
                 prior_lambda=float(gen.pick(rng, [1.0, 0.5])), prior_weight=float(gen.pick(rng, [0.1, 1.0])))
-    case['prec'] = gen.spd(rng, n_ch, 100.0) if prec_kind == 'one' else None
+    # unit of the precision: data recorded in large or small units have precisions of 1e-12 ... 1e6 (the distance is
+    # linear in the precision, so are all absolute tolerances below)
+    case['pscale'] = float(10.0 ** int(rng.integers(-12, 7))) if rng.integers(2) else 1.0
+    case['prec'] = gen.spd(rng, n_ch, 100.0) * case['pscale'] if prec_kind == 'one' else None
     # per-fold precisions, keyed by fold label
-    case['precs'] = {flabs[f]: gen.spd(rng, n_ch, 100.0) for f in range(n_fold)} \
+    case['precs'] = {flabs[f]: gen.spd(rng, n_ch, 100.0) * case['pscale'] for f in range(n_fold)} \
         if prec_kind == 'per_fold' else None
+    if prec_kind == 'none':
+        case['pscale'] = 1.0
     return case
 
 
@@ -154,7 +159,7 @@ def pairs_equal(ctx, check, sig, rdms, want, case, what='', **wx):
         ctx.fail(check, sig, f'{what} label pairs differ: {sorted(map(str, lab))}', witness(case, **wx))
         return False
     for k, (v1, v2) in got.items():
-        if not (close(v1, want[k], RT, AT) and close(v2, want[k], RT, AT)):
+        if not (close(v1, want[k], RT, AT * case['pscale']) and close(v2, want[k], RT, AT * case['pscale'])):
             ctx.fail(check, sig, f'{what} pair {sorted(map(str, k))}: got {v1!r} want {want[k]!r}',
                      witness(case, **wx))
             return False
@@ -238,7 +243,7 @@ def run_case(ctx, case):
     if ok:
         ctx.case('every_fold_contributes', sig)
         want2 = reference(case, meas=meas2)
-        if all(close(want2[k], want[k], 1e-9, 1e-10) for k in want2):
+        if all(close(want2[k], want[k], 1e-9, 1e-10 * case['pscale']) for k in want2):
             ctx.count('influence_not_expected')  # coincidence (e.g. the other folds cancel)
         pairs_equal(ctx, 'every_fold_contributes', sig, r2, want2, case,
                     what=f'after replacing fold {case["flabs"][f_hit]!r}', meas2=meas2, fold_hit=f_hit)
@@ -256,7 +261,7 @@ def run_case(ctx, case):
             ctx.case('fold_offset_cancels', sig)
             p3 = as_pairs(r3)
             for k in p3:
-                if not close(p3[k], base_pairs[k], 1e-7, 1e-8):
+                if not close(p3[k], base_pairs[k], 1e-7, 1e-8 * case['pscale']):
                     ctx.fail('fold_offset_cancels', sig, f'fold-constant offsets changed pair '
                              f'{sorted(map(str, k))}: {p3[k]!r} vs {base_pairs[k]!r}',
                              witness(case, meas3=meas3))
@@ -297,7 +302,7 @@ def run_case(ctx, case):
         try:
             p6 = as_pairs(r6)
             for k in p6:
-                if not close(p6[k], base_pairs[k], 1e-8, 1e-9):
+                if not close(p6[k], base_pairs[k], 1e-8, 1e-9 * case['pscale']):
                     ctx.fail('inv_channel_perm', sig, f'channel permutation changed pair '
                              f'{sorted(map(str, k))}: {p6[k]!r} vs {base_pairs[k]!r}',
                              witness(case, channel_perm=cp))
